@@ -1075,12 +1075,12 @@ pub fn rec_indent(ch: &mut Chunker, s: &str, p: &str) {
 }
 
 /// a margin of 1-3 characters drawn from *all* Unicode whitespace (minus line breaks)
-fn rand_margin(r: &mut Rng) -> String {
+pub fn rand_margin(r: &mut Rng) -> String {
     let ws: Vec<char> = UNICODE_WS.iter().copied().filter(|c| !matches!(c, '\u{b}' | '\u{c}' | '\u{85}' | '\u{2028}' | '\u{2029}')).collect();
     (0..r.range(1, 3)).map(|_| *r.pick(&ws)).collect()
 }
 
-fn gen_margin_text(r: &mut Rng) -> String {
+pub fn gen_margin_text(r: &mut Rng) -> String {
     if r.chance(1, 3) {
         // margins that share a prefix and diverge at different whitespace characters
         let common = rand_margin(r);
